@@ -535,6 +535,95 @@ def _secs_per_day(t):
     return seen_freq and abs(prod - 86400.0) < 1e-6
 
 
+def _ieval(t, env):
+    """evaluate an integer term of the rounding function for one input (u32 semantics); None if not understood"""
+    t = T.strip(t)
+    k = T.fold_int(t)
+    if k is not None:
+        return k
+    while t[0] == "cast":
+        t = T.strip(t[2])
+    if t[0] == "param" or t[0] == "loopvar":
+        return env.get(t[2])
+    if t[0] == "call" and len(t[2]) == 2:
+        a, c = _ieval(t[2][0], env), _ieval(t[2][1], env)
+        if a is None or c is None:
+            return None
+        last = t[1].rsplit("::", 1)[-1]
+        M = 0xFFFFFFFF
+        if last == "saturating_add":
+            return min(a + c, M)
+        if last == "saturating_sub":
+            return max(a - c, 0)
+        if last == "saturating_mul":
+            return min(a * c, M)
+        if last in ("saturating_div", "wrapping_div"):
+            return a // c if c else None
+        if last == "wrapping_add":
+            return (a + c) & M
+        return None
+    if t[0] == "binop":
+        a, c = _ieval(t[2], env), _ieval(t[3], env)
+        if a is None or c is None:
+            return None
+        op = t[1].replace("WithOverflow", "")
+        return {"Add": a + c, "Sub": a - c, "Mul": a * c, "Div": a // c if c else None, "Rem": a % c if c else None}.get(op)
+    if t[0] == "field" and T.strip(t[1])[0] == "binop":
+        return _ieval(t[1], env)
+    return None
+
+
+def rule_R8(ctx):
+    """R8: the frequency grid: round_frequency_p0f_style maps every integer rate 0..=2000 to the value of the documented grid.  The
+    arms of its match are extracted as an interval table and each arm's expression is evaluated for every rate of its band (a finite
+    domain, covered exhaustively - no execution of the program)"""
+    P = ctx.program
+    spec = _spec_tables()["frequency_grid"]["bands"]
+    b = P.body("huginn_net_tcp::uptime::round_frequency_p0f_style")
+    var = [i for i, l in enumerate(b.locals) if l.get("name") == "freq" and b.locals[i]["ty"] == "u32"]
+    start = None
+    for blk in sorted(b.reachable):
+        if b.blocks[blk]["t"]["k"] == "switch":
+            start = blk
+            break
+    if not var or start is None:
+        ctx.cannot("R8", "frequency-grid", "match on the integer rate not found", ctx.loc(b))
+        return
+    rows, imp = TB.interval_table(b, var[0], start, TB.U32, P)
+    if imp:
+        ctx.cannot("R8", "frequency-grid", "interval table not exact: %s" % imp[:2], ctx.loc(b))
+        return
+
+    def want(f):
+        for lo, hi, add, div, mul, kind in spec:
+            if lo <= f <= hi:
+                return 1 if kind == "const1" else f if kind == "id" else (f + add) // div * mul
+        return None
+    bad = []
+    undecided = 0
+    for f in range(0, 2001):
+        term = None
+        for (ivs, res, blk) in rows:
+            if any(lo <= f <= hi for (lo, hi) in ivs):
+                term = res
+        got = _ieval(term, {"freq": f}) if term is not None else None
+        if got is None:
+            undecided += 1
+        elif got != want(f):
+            bad.append((f, got, want(f)))
+    ctx.check(not bad and not undecided, "R8", "frequency-grid", "all 2001 integer rates 0..=2000 map to the documented grid value",
+              "the rounding grid differs from the documented one for %d rates (first: %s as (rate, code, grid))%s: a steady clock at such a rate is reported at another frequency and its "
+              "uptime / wrap period are scaled accordingly" % (len(bad), bad[:4], "; %d rates could not be evaluated" % undecided if undecided else ""), ctx.loc(b))
+
+
+def _spec_tables():
+    import json
+    import os
+    from ..engine.facts import VERIF
+    with open(os.path.join(VERIF, "tables", "spec_tables.json")) as fh:
+        return json.load(fh)
+
+
 def rule_R7(ctx):
     """R7: snapping a measured rate to the documented grid uses the NEAREST multiple of the base rate (round), and accepts it iff the
     per-multiple rate is within the tolerance of the base"""
@@ -570,6 +659,7 @@ def rule_twins(ctx):
 
 def run(ctx):
     rule_twins(ctx)
+    rule_R8(ctx)
     rule_R7(ctx)
     rule_R6(ctx)
     rule_R1_R2(ctx)
